@@ -283,6 +283,53 @@ def run_extras(case):
     return {"bad": bad, "counts": counts, "info": info}
 
 
+def run_fpenv(case):
+    """Process-wide floating-point state (rounding mode, flush-to-zero / denormals-are-zero) is 'what was simulated earlier
+    in the process' too: a deterministic run whose amounts are subnormal (about 1e-313) is executed first thing in a fresh
+    process, then again after simulations of every engine kind on both space types; the two trajectories must be
+    bit-identical.  One fresh interpreter per case."""
+    use_repo()
+    engines.install()
+    import strengths as st
+    sd, idx = case["seed"], case["idx"]
+    r = gen.rng_for(sd, "C08fp", idx)
+
+    def script_on(space_kind, tiny, kind_seed):
+        rr = gen.rng_for(sd, "C08fp-s", idx, space_kind, tiny, kind_seed)
+        n = rr.randint(3, 12)
+        net = st.RDNetwork([st.Species("A", D=rr.uniform(0.2, 1.0), density=0), st.Species("B", D=rr.uniform(0.0, 0.5), density=0)],
+                           [st.Reaction("A -> B", kf=rr.uniform(0.1, 1.0), kr=rr.uniform(0.0, 0.3))])
+        if space_kind == "graph":
+            nodes = [st.RDGraphSpaceNode(volume=rr.uniform(0.5, 2.0)) for _ in range(n)]
+            edges = [st.RDGraphSpaceEdge(i, i + 1, surface=rr.uniform(0.5, 1.5), distance=rr.uniform(0.7, 1.4)) for i in range(n - 1)]
+            space = st.RDGraphSpace(nodes, edges)
+        else:
+            space = st.RDGridSpace(w=n, h=1, d=1, boundary_conditions={"x": rr.choice(["reflecting", "periodical"])})
+        scale = 2.0 ** -1040 if tiny else 1.0
+        state = [float(rr.choice([0, rr.randint(1, 400)])) * scale for _ in range(2 * n)]
+        system = st.RDSystem(net, space, state=state)
+        return st.RDScript(system, t_sample=[0, 0.4], time_step=0.01, sampling_policy="on_iteration", init_state_processing="none",
+                           rng_seed=rr.randrange(2 ** 31))
+    bad, counts = [], {}
+    probe_space = r.choice(["graph", "grid"])
+    probe = script_on(probe_space, True, 0)
+    first = digest(st.simulate_script(probe, engines.get("euler")))
+    if not any(0.0 < abs(x) < 2.2250738585072014e-308 for x in first[3]):
+        counts["fpenv_probes_without_subnormal_values"] = 1
+    disturbers = [(k_, sp_) for k_ in engines.KINDS for sp_ in ("grid", "graph")]
+    r.shuffle(disturbers)
+    for k_, sp_ in disturbers[:r.randint(2, 6)]:
+        st.simulate_script(script_on(sp_, False, k_), engines.get(k_))
+    again = digest(st.simulate_script(probe, engines.get("euler")))
+    counts["fpenv_probe_pairs"] = 1
+    if first[0] != again[0]:
+        bad.append({"what": "a deterministic run with subnormal amounts differs once other simulations have run in the process "
+                            "(process-wide floating-point state changed by an engine)", "probe_space": probe_space,
+                    "ran_in_between": [list(x) for x in disturbers], "first_tail": first[3], "again_tail": again[3]})
+    return {"bad": bad, "counts": counts, "key": chash(["fpenv", sd, idx]), "nontrivial": True,
+            "sample": {"seed": sd, "idx": idx, "probe_space": probe_space}}
+
+
 def reference(case):
     """fresh process, iterate() only"""
     return run_variant({**case, "variant": "ref", "mode": "iterate", "history": None, "reuse": False})
@@ -399,6 +446,9 @@ def main():
         for b in v["bad"]:
             run.violation(b["what"][:60], {**b, "case": c, "info": v["info"]}, mech={"what": b["what"]})
     run.note("distinct_partitions_of_the_iteration_sequence", len(partitions))
+    from vf.sandbox import run_extra as _run_extra
+    _run_extra(run, "vf.checks.c08:run_fpenv", [{"seed": sd, "idx": i} for i in range(400 if thorough else 48)], cpu_budget=120, fresh=True)
+    run.require("fpenv_probe_pairs")
     return run.finish()
 
 
